@@ -66,7 +66,11 @@ type Map struct {
 	live  []bool
 }
 
-type Chan struct{ ctx *Obj }
+type Chan struct {
+	ctx    *Obj
+	closed bool
+	id     int
+}
 
 // Obj is an opaque environment object (net.Conn stub, listener, bufio, ctx, error, ...).
 type Obj struct {
